@@ -261,7 +261,9 @@ func wrapperFunc(m dsl.Matcher) {
 	m.Match(`$i := strings.Index($s, $sep); $*_; $x, $y = $s[:$i], $s[$i+1:]`,
 		`$i := strings.Index($s, $sep); $*_; $x = $s[:$i]; $*_; $y = $s[$i+1:]`).
 		Where(m.GoVersion().GreaterEqThan("1.18")).
-		Suggest("$x, $y, _ = strings.Cut($s, $sep)")
+		// Not a Suggest(): the match covers the statements between ($*_),
+		// an automatic fix would delete them.
+		Report("suggestion: $x, $y, _ = strings.Cut($s, $sep)")
 
 	m.Match(
 		`if $i := strings.Index($s, $sep); $i != -1 { $*_; $x, $y = $s[:$i], $s[$i+1:]; $*_ }`,
@@ -269,7 +271,9 @@ func wrapperFunc(m dsl.Matcher) {
 		`if $i := strings.Index($s, $sep); $i >= 0 { $*_; $x, $y = $s[:$i], $s[$i+1:]; $*_ }`,
 		`if $i := strings.Index($s, $sep); $i >= 0 { $*_; $x = $s[:$i]; $*_; $y = $s[$i+1:]; $*_ }`).
 		Where(m.GoVersion().GreaterEqThan("1.18")).
-		Suggest("if $x, $y, ok = strings.Cut($s, $sep); ok { ... }")
+		// Not a Suggest(): `{ ... }` stands for the body, an automatic fix
+		// would write it into the file literally.
+		Report("suggestion: if $x, $y, ok = strings.Cut($s, $sep); ok { ... }")
 
 	m.Match(`bytes.SplitN(b, []byte("."), -1)`).Report("use bytes.Split method in `$$`")
 	m.Match(`bytes.Replace($_, $_, $_, -1)`).Report("use bytes.ReplaceAll method in `$$`")
